@@ -50,6 +50,11 @@ RLFamily == {LET r == AbsRuns(gl) e == IF Len(r) = 0 THEN 0 ELSE r[Len(r)][1] + 
 SpreadFamily == UNION {{FromSet(L, S), FromSet(L, (0..(L - 1)) \ S)} :
                           S \in {T \in SUBSET SpreadPos : Cardinality(T) <= SpreadK}, L \in FamilyLens}
 
+\* Mode "rlblocks": k equal runs (gap 9 = 2 code units, length 3 = 1 unit: 21 runs fill 63 of the 64 units of a
+\* block, so every block but the last ends with one unit of padding) - contents whose run-length encoding has
+\* two or three blocks with only a few runs in the last one; every argument 0..len+1.
+BlockFamily == {LET r == [i \in 1..k |-> <<(i - 1) * 12 + 9, 3>>] IN [len |-> k * 12 + t, runs |-> r] : k \in {21, 22, 23, 43, 44}, t \in {0, 4}}
+
 EdgeArgs(b) ==
     LET L == b.len
         k == Len(b.runs)
@@ -69,11 +74,13 @@ Init == \/ /\ Mode = "bits"
            /\ B \in RLFamily
         \/ /\ Mode = "spread"
            /\ B \in SpreadFamily
+        \/ /\ Mode = "rlblocks"
+           /\ B \in BlockFamily
 Next == UNCHANGED B
 Spec == Init /\ [][Next]_B
 
 Case ==
-    LET args == IF Mode \in {"bits", "spread"} THEN AllArgs(B.len) ELSE EdgeArgs(B)
+    LET args == IF Mode \in {"bits", "spread", "rlblocks"} THEN AllArgs(B.len) ELSE EdgeArgs(B)
         m == Len(args)
         InLen(a) == a >= 0 /\ a < B.len
     IN [k |-> "bv", len |-> B.len, runs |-> B.runs, args |-> args,
